@@ -13,3 +13,8 @@ func TestC12(t *testing.T) { simkit.Main(t, SpecC12()) }
 func TestC23(t *testing.T) { simkit.Main(t, SpecC23()) }
 func TestC14(t *testing.T) { simkit.Main(t, SpecC14()) }
 func TestC15(t *testing.T) { simkit.Main(t, SpecC15()) }
+func TestC19(t *testing.T) { simkit.Main(t, SpecC19()) }
+func TestC13(t *testing.T) { simkit.Main(t, SpecC13()) }
+func TestC16(t *testing.T) { simkit.Main(t, SpecC16()) }
+func TestC17(t *testing.T) { simkit.Main(t, SpecC17()) }
+func TestC18(t *testing.T) { simkit.Main(t, SpecC18()) }
